@@ -69,11 +69,15 @@ Definition model_set_gen (fx : bool) (c : set_case) : set_result :=
   | Err e => {| sr_reg := IErr (class_of e); sr_renders := []; sr_blocks := [] |}
   | Ok fr =>
       {| sr_reg := IOk [];
-         sr_renders := map (fun '(t, _) => (t, to_ires (render_model corr_fuel fr t))) (sc_renders c);
+         sr_renders := map (fun t => (t_name t, to_ires (render_model corr_fuel fr (t_name t)))) (sc_tpls c);
          sr_blocks := map (fun '(t, b, _) => (t, b, to_ires (render_block_gen fx corr_fuel fr t b)))
                           (sc_blocks c) |}
   end.
 Definition model_set := model_set_gen true.
+
+(* the set is in the D13 class: some template's render never finishes *)
+Definition diverges (m : set_result) : bool :=
+  existsb (fun '(_, r) => match r with IErr CDiverge => true | _ => false end) (sr_renders m).
 
 Fixpoint renders_eqb (a b : list (name * ires)) : bool :=
   match a, b with
@@ -88,20 +92,17 @@ Fixpoint blocks_eqb (a b : list (name * name * ires)) : bool :=
   | _, _ => false
   end.
 
-Definition check_set (c : set_case) : bool :=
-  let m := model_set c in
-  ires_eqb (sr_reg m) (sc_reg c) &&
-  match sr_reg m with
-  | IOk _ => renders_eqb (sr_renders m) (sc_renders c) && blocks_eqb (sr_blocks m) (sc_blocks c)
-  | IErr _ => true
+Definition check_gen (fx : bool) (c : set_case) : bool :=
+  let m := model_set_gen fx c in
+  match sr_reg m, sc_reg c with
+  | IOk _, IOk _ => renders_eqb (sr_renders m) (sc_renders c) && blocks_eqb (sr_blocks m) (sc_blocks c)
+  | IOk _, IErr CMsg => diverges m   (* a finalize that refuses D13-class sets (C11) is not a C04 difference *)
+  | IErr a, IErr b => iclass_eqb a b
+  | _, _ => false
   end.
+
+Definition check_set (c : set_case) : bool := check_gen true c.
 
 (* the same comparison against the model of the pinned code (before fixes/D8): used to show
    that the only difference is the D8 class *)
-Definition check_set_pinned (c : set_case) : bool :=
-  let m := model_set_gen false c in
-  ires_eqb (sr_reg m) (sc_reg c) &&
-  match sr_reg m with
-  | IOk _ => renders_eqb (sr_renders m) (sc_renders c) && blocks_eqb (sr_blocks m) (sc_blocks c)
-  | IErr _ => true
-  end.
+Definition check_set_pinned (c : set_case) : bool := check_gen false c.
